@@ -311,6 +311,8 @@ def _run(ctx, rnd, quick, ct, ft, it, names, mod, CallTraceRow, CallTrace, type_
     # ------------------------------ traces ------------------------------
     good_types = [c["obj"] for c in cases[:n_type] if c.get("in_scope_guess") and c["site"] == SITE_FRESH]
     rnd.shuffle(good_types)
+    td_types = [t for t in good_types if ej.has_td(t)] or good_types
+    pick = (lambda: rnd.choice(td_types) if rnd.random() < 0.5 else rnd.choice(good_types))
     NoneType = type(None)
     argnames = ["self", "a", "b", "x", "kw", "cls"]
     reps = 1 if quick else 6
@@ -319,9 +321,9 @@ def _run(ctx, rnd, quick, ct, ft, it, names, mod, CallTraceRow, CallTrace, type_
             for rmode in ("absent", "none", "type"):
                 for ymode in ("absent", "none", "type"):
                     n_args = rnd.choice([0, 1, 2, 3])
-                    args = {n: rnd.choice(good_types) for n in rnd.sample(argnames, n_args)}
-                    ret = {"absent": None, "none": NoneType, "type": rnd.choice(good_types)}[rmode]
-                    yld = {"absent": None, "none": NoneType, "type": rnd.choice(good_types)}[ymode]
+                    args = {n: pick() for n in rnd.sample(argnames, n_args)}
+                    ret = {"absent": None, "none": NoneType, "type": pick()}[rmode]
+                    yld = {"absent": None, "none": NoneType, "type": pick()}[ymode]
                     cases.append(_trace_case(CallTrace, CallTraceRow, func, expect, kind, label, args, ret, yld, rmode, ymode,
                                              ct, ft, it, names, dist))
     # a few traces whose types cannot be serialised (serialize_traces drops them)
@@ -393,7 +395,10 @@ def _run(ctx, rnd, quick, ct, ft, it, names, mod, CallTraceRow, CallTrace, type_
                 "shipped rewriter's output on those, and decoded types re-used as originals, de-duplicated by reified term; each goes "
                 "through type_to_json, type_from_json, re-encoding of the decoded type and encoding of a field-reversed copy. "
                 "decoder edges: directed malformed dicts + single mutations of real encodings. traces: every fixture function kind x "
-                "return {absent, NoneType, type} x yield {absent, NoneType, type} x 0-3 argument types. non-trivial = type has a "
+                "return {absent, NoneType, type} x yield {absent, NoneType, type} x 0-3 argument types (half of them TypedDict-bearing); "
+                "every trace is also built the other way round (argument dict in reverse insertion order, every TypedDict's fields "
+                "reversed, same site) and the raw stored strings of the two CallTraceRows must be identical; same raw-text test for "
+                "the field-reversed copy of every TypedDict-bearing type; model JSON vs stored JSON compared in key ORDER. non-trivial = type has a "
                 "generic/union/TypedDict node, or any trace/decode case; distinct by hash of the reified case",
         "samples": samples, "distribution": dict(sorted(dist.items())),
         "failures": failures, "mismatches": mismatches,
@@ -420,10 +425,15 @@ def _type_case(t, t_term, site, origin, it, names, ct, type_to_json, type_from_j
     else:
         dist["type_encode_raised:" + err.split(":")[0]] += 1
     pj = "OutOfModel"
+    ptext_same = True
     if site == SITE_FRESH and ej.has_td(t):
         try:
-            _, pj, _ = _encode(type_to_json, ej.reverse_fields(t), it, names)
+            ptext, pj, _ = _encode(type_to_json, ej.reverse_fields(t), it, names)
+            ptext_same = (ptext == text)          # the stored strings themselves, not their parse
             dist["field_reversed_copies"] += 1
+            if not ptext_same:
+                dist["field_reversed_text_differs"] += 1
+                impl = f"text of the field-reversed copy differs: {str(ptext)[:150]} vs {str(text)[:150]}"
         except ValueError:
             pass
     dist["origin:" + origin.split(" k=")[0]] += 1
@@ -431,7 +441,7 @@ def _type_case(t, t_term, site, origin, it, names, ct, type_to_json, type_from_j
         if tag in t_term:
             dist["has_" + tag] += 1
     return {"kind": "type", "obj": t, "site": site, "tree": json.loads(text) if text else None,
-            "term": f"ECType {common.coq_str(site)} ({t_term}) {ij} {id_term} {rj} {pj}",
+            "term": f"ECType {common.coq_str(site)} ({t_term}) {ij} {id_term} {rj} {pj} {common.coq_bool(ptext_same)}",
             "desc": repr(t)[:400] + f"  [{origin}]", "impl": impl,
             "in_scope_guess": text is not None and dec is not None and "c08fx" not in repr(t),
             "nontrivial": any(x in t_term for x in ("TUnion", "TTypedDict", "TList", "TDict", "TTuple", "TSet", "TType", "TGenerator"))}
@@ -450,8 +460,27 @@ def _trace_case(CallTrace, CallTraceRow, func, expect, kind, label, args, ret, y
         _opt(None if ret is None else f"({rt(ret)})"), _opt(None if yld is None else f"({rt(yld)})"))
     ib = "OutOfModel"
     impl = None
+    text_same = True
     try:
         row = CallTraceRow.from_trace(tr)
+        # the same trace built the other way round: argument dict in reverse insertion order, every TypedDict
+        # below any of its types with reversed fields (same construction site).  The stored STRINGS must coincide.
+        try:
+            rv = (lambda t: None if t is None else ej.reverse_fields(t))
+            tr2 = CallTrace(func, {n: ej.reverse_fields(t) for n, t in reversed(list(args.items()))}, rv(ret), rv(yld))
+            row2 = CallTraceRow.from_trace(tr2)
+            text_same = ((row.module, row.qualname, row.arg_types, row.return_type, row.yield_type)
+                         == (row2.module, row2.qualname, row2.arg_types, row2.return_type, row2.yield_type))
+            dist["trace_permuted_copies"] += 1
+            if any(ej.has_td(t) for t in list(args.values()) + [x for x in (ret, yld) if x is not None]):
+                dist["trace_permuted_copies_with_typeddict"] += 1
+            if len(args) >= 2:
+                dist["trace_permuted_copies_with_2+_args"] += 1
+        except ValueError:
+            pass
+        except Exception as e:
+            text_same = False
+            impl = f"from_trace of the permuted copy raised {type(e).__name__}: {e}"
         for text in (row.arg_types, row.return_type, row.yield_type):
             if text is not None:
                 ej.walk_names(json.loads(text), names)
@@ -466,7 +495,7 @@ def _trace_case(CallTrace, CallTraceRow, func, expect, kind, label, args, ret, y
                 common.coq_list(f"({common.coq_str(n)}, {rt(t)})" for n, t in back.arg_types.items()),
                 _opt(None if back.return_type is None else f"({rt(back.return_type)})"),
                 _opt(None if back.yield_type is None else f"({rt(back.yield_type)})"))
-            impl = f"to_trace -> func {'same' if back.func is func else 'DIFFERENT'}, return {back.return_type!r:.80}, yield {back.yield_type!r:.80}"
+            impl = impl or f"to_trace -> func {'same' if back.func is func else 'DIFFERENT'}, return {back.return_type!r:.80}, yield {back.yield_type!r:.80}"
         except Exception as e:
             ib = ej.exn_term(e)
             impl = f"to_trace raised {type(e).__name__}: {e}"
@@ -478,7 +507,12 @@ def _trace_case(CallTrace, CallTraceRow, func, expect, kind, label, args, ret, y
     dist["trace_kind:" + kind] += 1
     dist[f"trace_return_{rmode}"] += 1
     dist[f"trace_yield_{ymode}"] += 1
-    return {"kind": "trace", "term": f"ECTrace {common.coq_bool(expect)} {tr_term} {ir} {ib}",
+    if not text_same:
+        dist["trace_permuted_text_differs"] += 1
+        impl = (f"CallTraceRow.from_trace stores different text for a structurally identical trace (permuted insertion order): "
+                f"arg_types {row.arg_types[:200]!r} vs {row2.arg_types[:200]!r}; return {str(row.return_type)[:80]!r} vs "
+                f"{str(row2.return_type)[:80]!r}; yield {str(row.yield_type)[:80]!r} vs {str(row2.yield_type)[:80]!r}") if impl is None or impl.startswith("to_trace") else impl
+    return {"kind": "trace", "term": f"ECTrace {common.coq_bool(expect)} {tr_term} {ir} {ib} {common.coq_bool(text_same)}",
             "desc": f"CallTrace({label} [{kind}], args={ {n: repr(t)[:60] for n, t in args.items()} }, return={ret!r:.80}, yield={yld!r:.80})",
             "impl": impl, "nontrivial": True}
 
